@@ -22,6 +22,10 @@ PLAN = dict(
         J("c03.stream", configs=["purego"], variant="purego", shards=(2, 8), floor=20000),
         J("c03.setiv", configs=_ASM, variant="asm", shards=(1, 2), floor=100),
         J("c03.setiv", configs=["purego"], variant="purego", shards=(1, 2), floor=100),
+        # 32-bit build of the generic code (GOARCH=386)
+        J("c03.oneshot", configs=["ia32"], variant="ia32", shards=(2, 16), floor=100000),
+        J("c03.stream", configs=["ia32"], variant="ia32", shards=(2, 8), floor=20000),
+        J("c03.setiv", configs=["ia32"], variant="ia32", shards=(1, 2), floor=100),
         # thorough only: race build (implies checkptr) over the assembly-backed paths
         dict(J("c03.oneshot", configs=["avx2"], variant="race", shards=(1, 16)), thorough_only=True),
         dict(J("c03.stream", configs=["avx2"], variant="race", shards=(1, 8)), thorough_only=True),
